@@ -33,7 +33,9 @@ type pipe struct {
 	cond    *sync.Cond
 	buf     []byte
 	closed  bool  // writer closed (FIN)
-	err     error // reset / connection error
+	err     error // reset / connection error (both directions of use)
+	rerr    error // what the READER of this pipe sees when the connection ended (overrides err)
+	werr    error // what the WRITER of this pipe sees when the connection ended (overrides err)
 	written int64 // total bytes ever written
 	read    int64
 	limit   int
@@ -56,6 +58,9 @@ func (p *pipe) write(b []byte) (int, error) {
 	defer p.mu.Unlock()
 	n := 0
 	for len(b) > 0 {
+		if p.werr != nil {
+			return n, p.werr
+		}
 		if p.err != nil {
 			return n, p.err
 		}
@@ -116,6 +121,9 @@ func (p *pipe) readInto(ctx context.Context, b []byte) (int, error) {
 			p.cond.Broadcast()
 			return n, nil
 		}
+		if !p.hold && p.rerr != nil {
+			return 0, p.rerr
+		}
 		if !p.hold && p.err != nil {
 			return 0, p.err
 		}
@@ -129,6 +137,18 @@ func (p *pipe) readInto(ctx context.Context, b []byte) (int, error) {
 func (p *pipe) closeWrite() {
 	p.mu.Lock()
 	p.closed = true
+	p.cond.Broadcast()
+	p.mu.Unlock()
+}
+
+func (p *pipe) failSide(err error, reader bool) {
+	p.mu.Lock()
+	if reader && p.rerr == nil {
+		p.rerr = err
+	}
+	if !reader && p.werr == nil {
+		p.werr = err
+	}
 	p.cond.Broadcast()
 	p.mu.Unlock()
 }
@@ -355,8 +375,10 @@ func (c *Conn) failEnd(err error) {
 	close(c.doneCh)
 	c.mu.Unlock()
 	for _, s := range streams {
-		s.in.fail(err)
-		s.out.fail(err)
+		// this end reads from s.in and writes to s.out: each sees ITS side's error even though the
+		// peer (which writes s.in and reads s.out) is told something else
+		s.in.failSide(err, true)
+		s.out.failSide(err, false)
 	}
 }
 
